@@ -7,6 +7,7 @@ Model: `Model/TimeoutCoord.lean` (the code after the `fix:` commit that resets `
 -/
 import SwimVerif.Proofs.TimeoutCoord
 import SwimVerif.Proofs.InactivityRt
+import SwimVerif.Proofs.InactivityDl
 
 set_option linter.unusedVariables false
 namespace SwimVerif.Coord
@@ -591,3 +592,70 @@ def C17_rt_quiet_stops_open : Prop :=
     T ≤ 100 * k → ((step (reachRt T ops) (.adv k)).1.stop).isSome = true
 
 end SwimVerif.InactRt
+
+/-!
+## … and the downlink runtime's two tasks (`Model/InactivityDl.lean`)
+
+Quantifier: every timeout `T`, every script of consumers attaching and leaving, events from the remote lane, commands
+and clock advances. `live` = the consumers that are attached and have not dropped their channels.
+-/
+namespace SwimVerif.InactDl
+open SwimVerif
+
+def reachDl (T : Nat) (ops : List Op) : St := run (init T) ops
+
+theorem reachDl_inv (T : Nat) (ops : List Op) : DInv (reachDl T ops) := dinv_run (dinv_init T) ops
+
+/-- **The downlink runtime stops for inactivity only when both tasks have an outstanding vote at that moment, neither
+knows of any consumer, and no consumer is attached.** -/
+theorem C17_dl_stop_needs_both_idle (T : Nat) (ops : List Op) (t : Nat) (hs : (reachDl T ops).stop = some t) :
+    (∀ i, i < 2 → Coord.votedAt (reachDl T ops).coord i = true) ∧
+    (reachDl T ops).rVoted = true ∧ (reachDl T ops).wVoted = true ∧
+    (reachDl T ops).rCons = [] ∧ (reachDl T ops).wCons = [] ∧ (reachDl T ops).live = [] := by
+  have h := reachDl_inv T ops
+  have hf := h.st_some t hs
+  have hall := (Coord.flags_all_iff h.c.inv).mp (by rw [hf, h.c.n2])
+  rw [h.c.n2] at hall
+  have hr : (reachDl T ops).rVoted = true := h.vr.symm.trans (hall 0 (by decide))
+  have hw : (reachDl T ops).wVoted = true := h.vw.symm.trans (hall 1 (by decide))
+  refine ⟨hall, hr, hw, h.rc hr, h.wc hw, ?_⟩
+  cases hl : (reachDl T ops).live with
+  | nil => rfl
+  | cons c rest =>
+    have := h.lw c (by rw [hl]; exact List.mem_cons_self)
+    rw [h.wc hw] at this; cases this
+
+/-- **An attached consumer keeps the runtime up** for as long as it does not drop its channels, whatever else happens
+and however long it is silent. -/
+theorem C17_dl_consumer_prevents_stop (T : Nat) (ops more : List Op) (c : Nat)
+    (hc : c ∈ (reachDl T ops).live) (hm : ∀ op, op ∈ more → op ≠ .dropc c) :
+    (reachDl T (ops ++ more)).stop = none := by
+  cases hs : (reachDl T (ops ++ more)).stop with
+  | none => rfl
+  | some t =>
+    have h1 := (C17_dl_stop_needs_both_idle T (ops ++ more) t hs).2.2.2.2.2
+    have h2 : c ∈ (reachDl T (ops ++ more)).live := by
+      unfold reachDl; rw [run_app]; exact live_run hc more hm
+    rw [h1] at h2; cases h2
+
+/-- **After unanimity the run ends.** -/
+theorem C17_dl_unanimity_ends_run (T : Nat) (ops : List Op)
+    (hf : (reachDl T ops).coord.flags = Coord.allMask 2) : ∃ t, (reachDl T ops).stop = some t := by
+  cases hs : (reachDl T ops).stop with
+  | some t => exact ⟨t, rfl⟩
+  | none => exact absurd hf ((reachDl_inv T ops).st_none hs)
+
+/-- While the runtime is up a new consumer's `rescind()` is never told `Unanimous`. -/
+theorem C17_dl_rescind_pending_while_up (T : Nat) (ops : List Op) (i : Nat) (hi : i < 2)
+    (hs : (reachDl T ops).stop = none) : rescindTold (reachDl T ops) i = false := by
+  have h := reachDl_inv T ops
+  rcases rescind_cases2 h.c hi with hl | hr
+  · exact absurd hl.2.2 (h.st_none hs)
+  · simp [rescindTold, hr.1]
+
+example : (reachDl 1001 [.attach 1, .adv 11, .dropc 1, .adv 11, .ev, .adv 5, .ev, .adv 5, .adv 6]).stop = some 3701 := by
+  decide
+example : (reachDl 1001 [.adv 9, .attach 1, .adv 21]).stop = none := by decide
+example : (reachDl 1001 [.adv 11]).stop = some 1001 := by decide
+
+end SwimVerif.InactDl
